@@ -369,6 +369,17 @@ func runC09(c *ctx) error {
 					tw := append(append([]byte{}, sb[:half]...), make([]byte, half-len(twin))...)
 					tw = append(tw, twin...)
 					add("signature:ecdsa-twin", parts[0]+"."+parts[1]+"."+rawURL.EncodeToString(tw), matching, "") // tolerated
+					// r + n and s + n (same residues, other numbers) where they fit into the fixed-size encoding (P-521: 66 bytes
+					// hold 528 bits, the order has 521): not the signature and not its twin
+					r := new(big.Int).SetBytes(sb[:half])
+					for which, v := range map[string][2]*big.Int{"r-plus-n": {new(big.Int).Add(r, n), s}, "s-plus-n": {r, new(big.Int).Add(s, n)}} {
+						rb, sbb := v[0].Bytes(), v[1].Bytes()
+						if len(rb) > half || len(sbb) > half {
+							continue
+						}
+						enc := append(append(make([]byte, half-len(rb)), rb...), append(make([]byte, half-len(sbb)), sbb...)...)
+						add("signature:ecdsa-"+which, parts[0]+"."+parts[1]+"."+rawURL.EncodeToString(enc), matching, "reject")
+					}
 				}
 				// header spellings: the verifier re-serialises the parsed header
 				alt := map[string]string{
